@@ -13,6 +13,8 @@ PROPERTIES_V = "theories/Properties/C17.v"
 CASE_IMPORTS = "From GV Require Import Prelude.Base Model.GridIndex Model.Octree Model.Parts.\nFrom Coq Require Import QArith."
 ALLOWED_AXIOMS: list = []
 REFUTED = [
+    "C17_origin_inplace_refuted (an accepted in-place write `obj.origin[\"x\"] = v` changes the reported origin without resetting the "
+    "centroid cache; open finding origin-inplace-stale; proposed fixes/C17-origin-inplace-readonly.patch)",
     "C17_parts_from_cells_refuted (labels from unordered cells disagree with connectivity; open finding parts-unordered-cells)",
     "C17_parts_unused_refuted (a vertex outside every segment shares label 0; open finding parts-unused-vertex)",
     "C17_first_delim_old_code_refuted (pre-repair transcription; repaired by /repo commit 4d6510a = fixes/C17-first-delimiter.patch)",
@@ -52,8 +54,9 @@ LEVEL_TEXT = (
     "Proved for all inputs (Coq, no axioms): block-model cell (i,j,k) is at index k+i*nZ+j*nU*nZ and 2-D grid cell (i,j) at "
     "i+j*nU of the centroid array, each centre being rot(dip(local centre))+origin with local centres the mid points of "
     "consecutive delimiters (all delimiter vectors, origin given or not); the number of centroids equals n_cells for block "
-    "model, grid and octree; every read after any history of setters returns the centroids of the current attributes (cache "
-    "coherence); a well-formed drape model has one centre per layer at (x, y, mid point of the layer's top and bottom); the default octree tiles the base grid exactly once for ALL power-of-two dimensions (unbounded); curve cells "
+    "model, grid and octree; every read after any history of API CALLS (setters / getters; writes into arrays that getters hand out "
+    "are not calls: origin[\"x\"] = v is modelled and refuted, writes into the returned centroid array are out of scope) returns the "
+    "centroids of the current attributes (cache coherence); a well-formed drape model has one centre per layer at (x, y, mid point of the layer's top and bottom); the default octree tiles the base grid exactly once for ALL power-of-two dimensions (unbounded); curve cells "
     "derived from parts join exactly the consecutive vertices of a part. Partial: parts derived from cells agree with "
     "connectivity only for chain-ordered vertex-disjoint polylines on used vertices (refuted otherwise: two open findings); "
     "rotation and dip are parameters (float trigonometry not proved). Two defects of the pre-repair code (default origin "
@@ -144,6 +147,14 @@ def gen_bm_ops(rng, shape):
             ops.append(["read"])
     if ops[-1] != ["read"]:
         ops.append(["read"])
+    return _with_inplace(rng, ops)
+
+
+def _with_inplace(rng, ops):
+    """sometimes: read, then an in-place edit of the array the `origin` getter hands out (obj.origin["x"] = v), then read."""
+    if rng.chance(15):
+        k = rng.range(1, len(ops))
+        ops = ops[:k] + [["origin_x", rng.range(-8, 8) * 0.5], ["read"]] + ops[k:]
     return ops
 
 
@@ -185,7 +196,7 @@ def gen_g2(rng, shape):
             ops.append(["read"])
     if ops[-1] != ["read"]:
         ops.append(["read"])
-    case["ops"] = ops
+    case["ops"] = _with_inplace(rng, ops)
     return case
 
 
@@ -213,7 +224,7 @@ def gen_oct(rng, exps, custom=False):
             ops.append(["read"])
     if ops[-1] != ["read"]:
         ops.append(["read"])
-    case["ops"] = ops
+    case["ops"] = _with_inplace(rng, ops)
     return case
 
 
@@ -418,10 +429,18 @@ def _drive_grid(case, ws):
                    "su": lambda v: setattr(obj, "u_cell_size", float(v)), "sv": lambda v: setattr(obj, "v_cell_size", float(v)),
                    "sw": lambda v: setattr(obj, "w_cell_size", float(v)),
                    "cells": lambda v: setattr(obj, "octree_cells", np.array(v, dtype="int32"))}
+    res["inplace_refused"] = []
     for k, op in enumerate(case["ops"]):
         try:
             if op[0] == "read":
                 res["reads"].append(_read(obj, kind))
+            elif op[0] == "origin_x":
+                # not a setter call: a write into the array the getter handed out; a refusal (read-only array) is an outcome
+                try:
+                    obj.origin["x"] = float(op[1])
+                    res["inplace_refused"].append(False)
+                except (ValueError, TypeError, IndexError):
+                    res["inplace_refused"].append(True)
             else:
                 setters[op[0]](op[1])
         except Exception as e:  # noqa: BLE001 - the refusal is the observation
@@ -529,7 +548,11 @@ def case_term(case, obs):
         rot = cq(case["rotation"] if case.get("rotation") is not None else 0)
     if kind == "bm":
         ops = []
+        refused = iter(obs.get("inplace_refused", []))
         for op in case["ops"]:
+            if op[0] == "origin_x":
+                ops.append(f"BmOriginX {cbool(next(refused))} {cq(op[1])}")
+                continue
             ops.append({"read": lambda v: "BmRead", "origin": lambda v: f"BmOrigin {cv3(v)}", "rotation": lambda v: f"BmRotation {cq(v)}",
                         "du": lambda v: f"BmDU {_qlist(v)}", "dv": lambda v: f"BmDV {_qlist(v)}", "dz": lambda v: f"BmDZ {_qlist(v)}"}[op[0]](op[1] if len(op) > 1 else None))
         b = "{| bm_origin := %s; bm_rotation := %s; bm_du := %s; bm_dv := %s; bm_dz := %s; bm_cache := None |}" % (
@@ -537,7 +560,11 @@ def case_term(case, obs):
         return f"bm_agree {b} {clist(ops)} {_reads_term(obs)}"
     if kind == "g2":
         ops = []
+        refused = iter(obs.get("inplace_refused", []))
         for op in case["ops"]:
+            if op[0] == "origin_x":
+                ops.append(f"GOriginX {cbool(next(refused))} {cq(op[1])}")
+                continue
             ops.append({"read": lambda v: "GRead", "origin": lambda v: f"GOrigin {cv3(v)}", "rotation": lambda v: f"GRotation {cq(v)}",
                         "dip": lambda v: f"GDip {cq(v)}", "vertical": lambda v: f"GVertical {cbool(bool(v))}",
                         "nu": lambda v: f"GNu {cnat(v)}", "nv": lambda v: f"GNv {cnat(v)}", "su": lambda v: f"GSu {cq(v)}",
@@ -549,7 +576,11 @@ def case_term(case, obs):
         return f"g_agree {g} {clist(ops)} {_reads_term(obs)}"
     if kind == "oct":
         ops = []
+        refused = iter(obs.get("inplace_refused", []))
         for op in case["ops"]:
+            if op[0] == "origin_x":
+                ops.append(f"OOriginX {cbool(next(refused))} {cq(op[1])}")
+                continue
             ops.append({"read": lambda v: "ORead", "origin": lambda v: f"OOrigin {cv3(v)}", "rotation": lambda v: f"ORotation {cq(v)}",
                         "su": lambda v: f"OSu {cq(v)}", "sv": lambda v: f"OSv {cq(v)}", "sw": lambda v: f"OSw {cq(v)}",
                         "cells": lambda v: f"OCells {_ocells(v)}"}[op[0]](op[1] if len(op) > 1 else None))
@@ -665,7 +696,15 @@ def _oracle_grid(case, obs):
             fails.append({"key": "octree-default-not-a-tiling", "what": f"default cells of {nu}x{nv}x{nw} do not cover every base cell exactly once"})
     ri = 0
     prev_expected = None
+    refused = iter(obs.get("inplace_refused", []))
+    inplace_pending = False  # an accepted origin["x"] = v since the last setter call
     for k, op in enumerate(case["ops"]):
+        if op[0] == "origin_x":
+            if not next(refused, True):
+                inplace_pending = True
+            continue
+        if op[0] not in ("read",):
+            inplace_pending = False
         if "error" in obs and obs.get("at") == k:
             if obs["error"] == "IndexError" and not origin_given and op[0] == "read":
                 key = "bm-default-origin-indexerror" if kind == "bm" else ("octree-default-origin-indexerror" if kind == "oct" else "grid-read-refused")
@@ -729,7 +768,8 @@ def _oracle_grid(case, obs):
             if alt is not None and not _differ(got, alt, approx):
                 key = "bm-first-delimiter-ignored"
             elif prev_expected is not None and len(prev_expected) == len(got) and not _differ(got, prev_expected, approx):
-                key = f"{kind}-stale-centroid-cache"
+                # the recorded defect: the stale read follows an accepted in-place edit of the origin array
+                key = "origin-inplace-stale" if inplace_pending else f"{kind}-stale-centroid-cache"
             else:
                 key = f"{kind}-centroid-position"
             bad = next(i for i in range(ncell) if _differ([got[i]], [exp[i]], approx))
